@@ -19,9 +19,11 @@ LEVEL = "exploration"
 RULE = (
     "corpus = every *.py under the interpreter's stdlib, /usr/lib/python3* and /venv site-packages that "
     "CPython's ast.parse accepts; quick = seeded sample stratified by origin and size + a fixed list of "
-    "syntax-dense files, thorough = all stdlib + a seeded byte-budgeted sample of the rest.  Per file: "
+    "syntax-dense files, thorough = seeded 30 MB sample (10 MB per origin, files <= 300 KB) + the same fixed list.  Per file: "
     "whole-module comparison (per top-level statement when the file uses class-level annotations), plus "
-    "seeded statements/expressions of the file embedded in 6 Scenic contexts.  A file is non-trivial when "
+    "seeded statements/expressions of the file embedded in 6 Scenic contexts; plus, on every run, the "
+    "479-snippet syntax-coverage corpus rt/pycorpus.py (one module per grammar construct), as modules and "
+    "embedded.  A file is non-trivial when "
     "both parsers accepted it and >= 20 source nodes were compared; distinct = distinct files."
 )
 ASSUMPTIONS = [
@@ -40,22 +42,28 @@ ASSUMPTIONS = [
 ]
 MIN_COUNTERS = {
     "quick": {
-        "files_equal": 120,
-        "nodes_lineno_compared": 300000,
+        "files_equal": 80,
+        "nodes_lineno_compared": 100000,
         "embedded_block_items_equal": 300,
         "embedded_expr_items_equal": 300,
         "rewrites_lifted": 50,
         "rewrites_star": 20,
         "rewrites_class_table": 50,
+        "rewrites_tracked": 10,
+        "synthetic_snippets": 480,
+        "synthetic_snippets_equal": 380,
     },
     "thorough": {
-        "files_equal": 1500,
-        "nodes_lineno_compared": 5000000,
+        "files_equal": 1000,
+        "nodes_lineno_compared": 1500000,
         "embedded_block_items_equal": 4000,
         "embedded_expr_items_equal": 4000,
         "rewrites_lifted": 1000,
         "rewrites_star": 300,
         "rewrites_class_table": 1000,
+        "rewrites_tracked": 10,
+        "synthetic_snippets": 480,
+        "synthetic_snippets_equal": 380,
     },
 }
 
@@ -63,27 +71,19 @@ DENSE = [
     "test/test_grammar.py",
     "test/test_fstring.py",
     "test/test_patma.py",
-    "test/test_syntax.py",
     "test/test_named_expressions.py",
     "test/test_type_params.py",
-    "test/test_type_aliases.py",
     "test/test_unpack_ex.py",
-    "test/test_exception_group.py",
     "test/test_positional_only_arg.py",
-    "test/test_string_literals.py",
-    "test/test_genexps.py",
     "test/test_keywordonlyarg.py",
     "test/test_decorators.py",
-    "test/test_with.py",
     "typing.py",
     "dataclasses.py",
-    "ast.py",
-    "enum.py",
 ]
 
 SIZE_BUCKETS = (2_000, 8_000, 24_000, 60_000)
-QUICK_QUOTA = {"stdlib": (22, 28, 28, 22), "usrlib": (8, 12, 12, 8), "site": (25, 30, 30, 25)}
-THOROUGH_BYTES = 70_000_000
+QUICK_QUOTA = {"stdlib": (16, 20, 20, 7), "usrlib": (5, 8, 8, 2), "site": (18, 22, 22, 8)}
+THOROUGH_BYTES = 30_000_000
 THOROUGH_MAX_FILE = 300_000
 BLOCK_CONTEXTS = ("behavior", "monitor", "setup", "compose")
 EXPR_CONTEXTS = ("require", "specifier")
@@ -121,23 +121,32 @@ def plan(tier, seed):
         nshards, timeout = 16, 1500
     else:
         files, _ = pynorm.list_corpus(THOROUGH_MAX_FILE)
-        chosen = [(p, sz) for origin, p, sz in files if origin == "stdlib"]
-        rest = [(p, sz) for origin, p, sz in files if origin != "stdlib"]
-        rng.shuffle(rest)
-        total = sum(sz for _, sz in chosen)
-        for p, sz in rest:
-            if total + sz > THOROUGH_BYTES:
-                continue
-            chosen.append((p, sz))
-            total += sz
+        # byte-budgeted seeded sample, a third of the budget per origin, syntax-dense files always included
+        chosen = [(p, os.path.getsize(p)) for p in dense]
+        have = {p for p, _ in chosen}
+        for origin in ("stdlib", "usrlib", "site"):
+            pool = [(p, sz) for o, p, sz in files if o == origin and p not in have]
+            rng.shuffle(pool)
+            total = 0
+            for p, sz in pool:
+                if total + sz > THOROUGH_BYTES // 3:
+                    continue
+                chosen.append((p, sz))
+                total += sz
         nshards, timeout = 64, 3400
     chosen.sort(key=lambda t: (-t[1], t[0]))
+    sub = int(os.environ.get("VERIF_C09_SUBSAMPLE", "1") or 1)  # development aid only
+    if sub > 1:
+        chosen = chosen[::sub]
     shards = [{"shard": i, "files": [], "bytes": 0, "timeout": timeout} for i in range(nshards)]
     for p, sz in chosen:
         s = min(shards, key=lambda s: (s["bytes"], s["shard"]))
         s["files"].append(p)
         s["bytes"] += sz
-    return [s for s in shards if s["files"]]
+    shards = [s for s in shards if s["files"]]
+    for s in shards:
+        s["nparts"] = len(shards)
+    return shards
 
 
 # ------------------------------------------------------------------------------------------------
@@ -295,6 +304,12 @@ def mechanism(o, py_tree):
             return "fstring-debug-specifier-text-dropped"
         if in_fstring and isinstance(x, str) and isinstance(y, str) and x.startswith(y) and x.rstrip().endswith("="):
             return "fstring-debug-specifier-text-dropped"
+        if in_fstring and isinstance(x, ast.Constant) and isinstance(x.value, str) and x.value.endswith("{") and isinstance(y, ast.FormattedValue):
+            return "fstring-middle-brace-taken-as-delimiter"
+        if in_fstring and isinstance(x, str) and isinstance(y, str) and x.endswith("{") and x[:-1] == y:
+            return "fstring-middle-brace-taken-as-delimiter"
+        if isinstance(x, ast.Starred) and y is None and o.path and isinstance(o.path[-1], ast.Starred) and len(o.path) > 1 and isinstance(o.path[-2], ast.arg):
+            return "vararg-star-annotation-dropped"
         return None
     if o.status == "reject" and py_tree is not None and o.line is not None:
         from rt import pynorm
@@ -679,7 +694,7 @@ def check_file(path, rng, res, tier, budget):
     if used_soft:
         bump("files_using_soft_keywords_as_identifiers")
 
-    def report(o, text, tree, context, snippet=None, extra_text="", twin=None):
+    def report(o, text, tree, context, snippet=None, extra_text="", twin=None, at=None):
         """classify an unequal outcome; returns True if it was a violation"""
         if o.status == "resource":
             skip("scenic-recursion-limit")
@@ -701,6 +716,8 @@ def check_file(path, rng, res, tier, budget):
             if twin is not None:
                 w["python"] = twin
         shown = (snippet if snippet is not None else "").strip()[:200]
+        if at is not None:
+            what += f" [statement starts at line {at} of the file]"
         res["violations"].append({"key": key, "what": f"[{context}] {rel}: {what}"[:500] + (f" | input: {shown!r}" if shown else ""), "witness": w})
         return True
 
@@ -736,12 +753,13 @@ def check_file(path, rng, res, tier, budget):
         bump("files_per_statement_mode")
         okc = bad = 0
         top = whole_line_statements(py_tree.body, lines)
-        skip("statement-shares-a-line", len(py_tree.body) - len(top))
+        if len(py_tree.body) > len(top):
+            skip("statement-shares-a-line", len(py_tree.body) - len(top))
         for st in top:
             if pynorm.class_annotation_lines(st):
                 skip("class-level-annotation-statement")
                 continue
-            text = stmt_text(st, lines, keep_position=True)
+            text = stmt_text(st, lines, keep_position=False)
             try:
                 t = ast.parse(text)
             except (SyntaxError, ValueError):
@@ -753,10 +771,10 @@ def check_file(path, rng, res, tier, budget):
                 continue
             bad += 1
             bump("statements_" + o.status)
-            small = stmt_text(st, lines, keep_position=False)
+            small = text
             if o.status != "resource" and budget["shrink"][0] > 0:
                 small = shrink(small, signature(o), budget["shrink"])
-            report(o, text, ast.parse(text), "statement", snippet=small)
+            report(o, text, ast.parse(text), "statement", snippet=small, at=_first_line(st))
         bump("statements_equal", okc)
         if okc >= 3:
             res["nontrivial"].append(su.h([os.path.basename(path), len(src)]))
@@ -766,7 +784,7 @@ def check_file(path, rng, res, tier, budget):
     py_tree = ast.parse(src)
 
     # ---- layer 2: embedded in Scenic constructs
-    kst = 6 if tier == "quick" else 8
+    kst = 5 if tier == "quick" else 8
     sts = pick_statements(py_tree, lines, rng, kst)
     texts = [stmt_text(st, lines, keep_position=False) for st in sts]
     first_ctx = rng.randrange(len(BLOCK_CONTEXTS))
@@ -802,7 +820,7 @@ def check_file(path, rng, res, tier, budget):
             else:
                 bump("embedded_" + context + "_" + o1.status)
                 report(o1, py1, ast.parse(py1), context, snippet=sc1, twin=py1)
-    kex = 8 if tier == "quick" else 12
+    kex = 6 if tier == "quick" else 12
     exprs = pick_expressions(src, py_tree, rng, kex)
     exprs = [e for e in exprs if not (set(_words(e)) & _TEMPORAL)]
     for context in EXPR_CONTEXTS:
@@ -837,6 +855,111 @@ def check_file(path, rng, res, tier, budget):
                 report(o1, py1, ast.parse(py1), context, snippet=sc1, extra_text=e, twin=py1)
 
 
+def check_synthetic(rng, res, part, nparts):
+    """The syntax-coverage corpus (rt/pycorpus.py): every snippet as a module, embedded in one block
+    context (rotating), and every expression in both expression contexts."""
+    from rt import pycorpus, pynorm, su
+
+    C = res["counters"]
+
+    def bump(k, n=1):
+        C[k] = C.get(k, 0) + n
+
+    def skip(k, n=1):
+        res["skipped"][k] = res["skipped"].get(k, 0) + n
+
+    hard, soft = pynorm.scenic_keywords()
+    sys.setrecursionlimit(_ORACLE_LIMIT)
+
+    def report(o, pytext, context, snippet, twin=None, extra_text=""):
+        if o.status == "resource":
+            skip("scenic-recursion-limit")
+            bump("resource_exhaustion")
+            return
+        cls = classify(o, pytext, ast.parse(pytext), extra_text)
+        if cls[0] == "ambiguity":
+            skip("documented-soft-keyword-ambiguity")
+            bump("ambiguity_" + cls[1])
+            return
+        _, key, what = cls
+        bump("violations_" + (key or "unclassified"))
+        n_same = sum(1 for v in res["violations"] if v["key"] == key)
+        if n_same >= (3 if key else 25):
+            return
+        w = {"path": "<rt/pycorpus.py>", "context": context, "source": snippet}
+        if twin is not None:
+            w["python"] = twin
+        res["violations"].append({"key": key, "what": f"[{context}] synthetic corpus: {what} | input: {snippet.strip()[:200]!r}", "witness": w})
+
+    def account(o):
+        bump("nodes_lineno_compared", o.nodes)
+        bump("end_lineno_mismatches_info", o.endbad)
+        bump("col_offset_mismatches_info", o.colbad)
+        for k, v in o.rewrites.items():
+            bump("rewrites_" + k, v)
+        res["_types"].update(o.types)
+
+    for idx, src in enumerate(pycorpus.SNIPPETS):
+        if idx % nparts != part:
+            continue
+        tree = ast.parse(src)
+        assert not (pynorm.identifiers(tree) & hard), src
+        res["evaluations"] += 1
+        bump("synthetic_snippets")
+        o = compare_module(src, tree)
+        if o.status == "equal":
+            bump("synthetic_snippets_equal")
+            account(o)
+            res["nontrivial"].append(su.h(["synthetic", src]))
+        else:
+            bump("synthetic_" + o.status)
+            report(o, src, "module", src)
+        # embedded, one block context per snippet
+        tree = ast.parse(src)
+        lines = src.split("\n")
+        if not src.endswith("\n") or "\r" in src or "\x0c" in src or not tree.body:
+            continue
+        sts = [st for st in whole_line_statements(tree.body, lines) if st.col_offset == 0]
+        if len(sts) != len(tree.body):
+            continue
+        if any(isinstance(st, ast.ImportFrom) and (st.module == "__future__") for st in sts):
+            continue
+        context = BLOCK_CONTEXTS[idx % 4]
+        if pynorm.contains(tree, _NO_EMBED) and context in ("behavior", "compose"):
+            context = "monitor"
+        if pynorm.contains(tree, (ast.Await, ast.AsyncFor, ast.AsyncWith)) and not pynorm.contains(tree, ast.AsyncFunctionDef):
+            continue
+        sc, py = block_program(context, [stmt_text(st, lines, keep_position=False) for st in sts])
+        try:
+            t = ast.parse(py)
+        except (SyntaxError, ValueError):
+            skip("embedding-not-valid-python")
+            continue
+        o = compare_module(sc, t, wrap_star=(context != "behavior"), extract=_extract_block(context), expected_extract=_expected_block(context))
+        bump("synthetic_embedded")
+        if o.status == "equal":
+            bump("synthetic_embedded_equal")
+            bump("embedded_block_items_equal", len(sts))
+            account(o)
+        else:
+            bump("synthetic_embedded_" + o.status)
+            report(o, py, context, sc, twin=py)
+    for idx, e in enumerate(pycorpus.EXPRESSIONS):
+        if idx % nparts != part:
+            continue
+        for context in EXPR_CONTEXTS:
+            sc, py = expr_program(context, [e])
+            o = compare_module(sc, ast.parse(py), extract=_extract_expr(context), expected_extract=_expected_expr(context))
+            bump("synthetic_embedded")
+            if o.status == "equal":
+                bump("synthetic_embedded_equal")
+                bump("embedded_expr_items_equal")
+                account(o)
+            else:
+                bump("synthetic_embedded_" + o.status)
+                report(o, py, context, sc, twin=py, extra_text=e)
+
+
 def _words(text):
     import re
 
@@ -851,6 +974,8 @@ def run_shard(spec):
     rng = random.Random(spec["seed"] * 1000003 + spec["shard"])
     res = {"evaluations": 0, "nontrivial": [], "counters": {}, "samples": [], "violations": [], "skipped": {}, "_types": set()}
     budget = {"shrink": [150]}
+    nparts = spec.get("nparts", 1)
+    check_synthetic(rng, res, spec["shard"] % nparts, nparts)
     for path in spec["files"]:
         check_file(path, rng, res, spec["tier"], budget)
     types = sorted(res.pop("_types"))
